@@ -186,20 +186,32 @@ Proof. unfold unique_sfn. destruct (final_ranges prefix ext existing) as [|[n b]
 Definition fs (t : list N) : list N := map fold1 t.
 Definition digits (ds : list N) : bool := forallb is_digit ds.
 
-Ltac fold1_cases x :=
+Ltac b2p := repeat match goal with
+  | H : _ || _ = true |- _ => apply orb_true_iff in H; destruct H
+  | H : _ || _ = false |- _ => apply orb_false_iff in H; destruct H
+  | H : _ && _ = true |- _ => apply andb_true_iff in H; destruct H
+  | H : _ && _ = false |- _ => apply andb_false_iff in H; destruct H
+  | H : negb _ = true |- _ => apply negb_true_iff in H
+  | H : negb _ = false |- _ => apply negb_false_iff in H
+  | H : (_ <=? _) = true |- _ => apply N.leb_le in H
+  | H : (_ <=? _) = false |- _ => apply N.leb_gt in H
+  | H : (_ =? _) = true |- _ => apply N.eqb_eq in H
+  | H : (_ =? _) = false |- _ => apply N.eqb_neq in H
+  end.
+(* walk down the if-chain of fold1, one condition at a time *)
+Ltac fold1_seq :=
   unfold fold1;
-  destruct (N.leb_spec 65 x), (N.leb_spec x 90), (N.leb_spec 192 x), (N.leb_spec x 222),
-    (N.eqb_spec x 215), (N.eqb_spec x 304), (N.eqb_spec x 305), (N.eqb_spec x 8490),
-    (N.eqb_spec x 383), (N.eqb_spec x 924), (N.eqb_spec x 956), (N.eqb_spec x 8491),
-    (N.eqb_spec x 7838), (N.eqb_spec x 376); cbn [andb orb negb]; try lia.
+  repeat match goal with
+         | |- context [if ?b then _ else _] => let E := fresh "E" in destruct b eqn:E
+         end; b2p; try lia.
 
 (* only the character itself folds to "~", ".", or a digit *)
 Lemma fold1_low x c : c < 65 -> fold1 x = c -> x = c.
-Proof. intros Hc. fold1_cases x. Qed.
+Proof. intros Hc. fold1_seq. Qed.
 Lemma fold1_tilde x : fold1 x = 126 -> x = 126.
-Proof. fold1_cases x. Qed.
+Proof. fold1_seq. Qed.
 Lemma fold1_low_id c : c < 65 -> fold1 c = c.
-Proof. intros Hc. fold1_cases c. Qed.
+Proof. intros Hc. fold1_seq. Qed.
 Lemma is_digit_range d : is_digit d = true -> 48 <= d /\ d <= 57.
 Proof. unfold is_digit. intros H. apply andb_true_iff in H as [H1 H2].
   apply N.leb_le in H1, H2. auto. Qed.
@@ -208,12 +220,12 @@ Proof.
   induction ds as [|d r IH]; cbn; [reflexivity|]. intros H. apply andb_true_iff in H as [H1 H2].
   apply is_digit_range in H1. rewrite fold1_low_id by lia. f_equal. apply IH, H2.
 Qed.
-Lemma fs_eq_digits t ds : digits ds = true -> fs t = ds -> t = ds.
+Lemma fs_eq_digits t : forall ds, digits ds = true -> fs t = ds -> t = ds.
 Proof.
-  revert ds; induction t as [|x t IH]; intros [|d ds]; cbn; try discriminate; [reflexivity|].
-  intros H E. apply andb_true_iff in H as [H1 H2]. inversion E as [[E1 E2]].
-  apply is_digit_range in H1. apply fold1_low in E1; [|lia]. rewrite E1, E2.
-  f_equal. rewrite <- E2 at 2. apply IH; [rewrite E2; exact H2|reflexivity].
+  induction t as [|x t IH]; intros [|d ds]; cbn [fs map digits forallb]; try discriminate; [reflexivity|].
+  intros H E. apply andb_true_iff in H as [H1 H2]. injection E as E1 E2.
+  apply is_digit_range in H1. apply fold1_low in E1; [|lia]. subst x. f_equal.
+  apply IH; assumption.
 Qed.
 Lemma fs_app a b : fs (a ++ b) = fs a ++ fs b. Proof. apply map_app. Qed.
 Lemma fs_split t : forall a b, fs t = a ++ b -> exists t1 t2, t = t1 ++ t2 /\ fs t1 = a /\ fs t2 = b.
@@ -230,7 +242,7 @@ Qed.
 Lemma match_lit_some p : forall t r,
   match_lit p t = Some r <-> exists t1, t = t1 ++ r /\ fs t1 = fs p.
 Proof.
-  induction p as [|a p IH]; intros t r; cbn [match_lit].
+  unfold fs. induction p as [|a p IH]; intros t r; cbn [match_lit].
   - split.
     + intros H; inversion H; subst. exists []. auto.
     + intros (t1 & E & F). destruct t1; [|discriminate]. subst. reflexivity.
@@ -238,35 +250,197 @@ Proof.
     + split; [discriminate|]. intros (t1 & E & F). destruct t1; discriminate.
     + unfold ci_eq1. destruct (N.eqb_spec (fold1 a) (fold1 b)) as [Hab|Hab].
       * rewrite IH. split.
-        -- intros (t1 & E & F). exists (b :: t1). subst. cbn. rewrite Hab, F. auto.
+        -- intros (t1 & E & F). exists (b :: t1). subst t. cbn [map app]. rewrite Hab, F. auto.
         -- intros (t1 & E & F). destruct t1 as [|x t1]; [discriminate|].
-           cbn in E, F. inversion E; inversion F; subst. exists t1. auto.
+           cbn [map app] in E, F. injection E as E0 E. injection F as F0 F. subst x. exists t1. auto.
       * split; [discriminate|]. intros (t1 & E & F). destruct t1 as [|x t1]; [discriminate|].
-        cbn in E, F. inversion E; inversion F; subst. congruence.
+        cbn [map app] in E, F. injection E as E0 E. injection F as F0 F. subst x. congruence.
 Qed.
 
-Lemma take_digits_some i : forall t ds r,
-  take_digits i t = Some (ds, r) <-> t = ds ++ r /\ length ds = i /\ digits ds = true.
+Lemma take_digits_sound i : forall t ds r,
+  take_digits i t = Some (ds, r) -> t = ds ++ r /\ length ds = i /\ digits ds = true.
 Proof.
-  induction i as [|i IH]; intros t ds r; cbn [take_digits].
-  - split.
-    + intros H; inversion H; subst. auto.
-    + intros (E & L & _). destruct ds; [|discriminate]. subst. reflexivity.
-  - destruct t as [|d t].
-    + split; [discriminate|]. intros (E & L & _). destruct ds; discriminate.
-    + destruct (is_digit d) eqn:Hd.
-      * destruct (take_digits i t) as [[ds' r']|] eqn:T.
-        -- apply IH in T. destruct T as (E & L & D). split.
-           ++ intros H; inversion H; subst. cbn. rewrite Hd, D. auto.
-           ++ intros (E' & L' & D'). destruct ds as [|x ds]; [discriminate|].
-              cbn in E', L', D'. inversion E'; subst x. apply andb_true_iff in D' as [_ D'].
-              assert (T' : take_digits i t = Some (ds, r)) by (apply IH; repeat split; auto; lia).
-              assert (T0 : take_digits i t = Some (ds', r')) by (apply IH; auto).
-              congruence.
-        -- split; [discriminate|]. intros (E' & L' & D'). destruct ds as [|x ds]; [discriminate|].
-           cbn in E', L', D'. inversion E'; subst x. apply andb_true_iff in D' as [_ D'].
-           assert (T' : take_digits i t = Some (ds, r)) by (apply IH; repeat split; auto; lia).
-           congruence.
-      * split; [discriminate|]. intros (E' & L' & D'). destruct ds as [|x ds]; [discriminate|].
-        cbn in E', D'. inversion E'; subst x. rewrite Hd in D'. discriminate.
+  induction i as [|i IH]; intros t ds r H; cbn [take_digits] in H.
+  - inversion H; subst. auto.
+  - destruct t as [|d t]; [discriminate|]. destruct (is_digit d) eqn:Hd; [|discriminate].
+    destruct (take_digits i t) as [[ds' r']|] eqn:T; [|discriminate].
+    inversion H; subst. apply IH in T as (E & L & D). subst.
+    cbn [digits forallb app length]. rewrite Hd. auto.
 Qed.
+Lemma take_digits_complete ds : forall r, digits ds = true ->
+  take_digits (length ds) (ds ++ r) = Some (ds, r).
+Proof.
+  induction ds as [|d ds IH]; intros r H; cbn [length app take_digits]; [reflexivity|].
+  cbn [digits forallb] in H. apply andb_true_iff in H as [H1 H2]. rewrite H1, (IH r H2). reflexivity.
+Qed.
+
+(* ---------- what one pattern matches ---------- *)
+(* the text after the numeric tail: "" or "." ext *)
+Definition extpart (ext : list N) : list N := match ext with [] => [] | _ => 46 :: ext end.
+(* case-folded form of everything pattern i matches with the digits ds *)
+Definition shape (prefix ext : list N) (i : nat) (ds : list N) : list N :=
+  fs (firstn (7 - i) prefix) ++ [126] ++ ds ++ fs (extpart ext).
+
+Lemma fs_nil t : fs t = [] -> t = [].
+Proof. destruct t; [reflexivity|discriminate]. Qed.
+
+Lemma rx_sound prefix ext i t v :
+  rx_match prefix ext i t = Some v ->
+  exists ds, fs t = shape prefix ext i ds /\ length ds = i /\ digits ds = true /\
+             v = int_of_digits ds.
+Proof.
+  unfold rx_match, rx_match_gen, shape.
+  destruct (match_lit (firstn (7 - i) prefix ++ [126]) t) as [r|] eqn:M; [|discriminate].
+  apply match_lit_some in M as (t1 & E & F).
+  destruct (take_digits i r) as [[ds r']|] eqn:T; [|discriminate].
+  apply take_digits_sound in T as (E2 & L & D). rewrite fs_app in F. cbn [fs map] in F.
+  change (fold1 126) with 126 in F. fold (fs t1) in F. fold (fs (firstn (7 - i) prefix)) in F.
+  destruct ext as [|e ext].
+  - cbn [at_end]. destruct r' as [|x r']; [|discriminate]. intros H; inversion H; subst.
+    exists ds. rewrite !fs_app, F, (fs_digits ds D). cbn [extpart fs map].
+    rewrite <- !app_assoc. auto.
+  - destruct (match_lit (46 :: e :: ext) r') as [r''|] eqn:M2; [|discriminate].
+    apply match_lit_some in M2 as (t3 & E3 & F3). cbn [at_end].
+    destruct r'' as [|x r'']; [|discriminate]. intros H; inversion H; subst.
+    exists ds. rewrite !fs_app, F, (fs_digits ds D), F3. cbn [extpart app].
+    rewrite <- !app_assoc. change (fs []) with (@nil N). rewrite app_nil_r. cbn [app]. auto.
+Qed.
+
+Lemma rx_complete prefix ext t ds :
+  fs t = shape prefix ext (length ds) ds -> digits ds = true ->
+  rx_match prefix ext (length ds) t = Some (int_of_digits ds).
+Proof.
+  unfold shape. intros H D.
+  apply fs_split in H as (t1 & t2 & E & F1 & F2).
+  apply fs_split in F2 as (ta & tb & E2 & Fa & Fb).
+  apply fs_split in Fb as (tc & td & E3 & Fc & Fd).
+  apply (fs_eq_digits tc ds D) in Fc. subst tc tb t2 t.
+  unfold rx_match, rx_match_gen.
+  assert (M : match_lit (firstn (7 - length ds) prefix ++ [126]) (t1 ++ ta ++ ds ++ td)
+              = Some (ds ++ td)).
+  { apply match_lit_some. exists (t1 ++ ta). split; [rewrite <- app_assoc; reflexivity|].
+    rewrite !fs_app, F1, Fa. reflexivity. }
+  rewrite M, (take_digits_complete ds td D).
+  destruct ext as [|e ext].
+  - cbn [extpart fs map] in Fd. apply fs_nil in Fd. subst td. reflexivity.
+  - cbn [extpart] in Fd.
+    assert (M2 : match_lit (46 :: e :: ext) td = Some []).
+    { apply match_lit_some. exists td. split; [rewrite app_nil_r; reflexivity|exact Fd]. }
+    rewrite M2. reflexivity.
+Qed.
+
+(* a text of the shape of pattern j is not matched by an earlier pattern i < j *)
+Lemma firstn_le_split {A} (l : list A) : forall b a, (b <= a)%nat ->
+  exists X, firstn a l = firstn b l ++ X.
+Proof.
+  induction l as [|x l IH]; intros b a H.
+  - exists []. rewrite !firstn_nil. reflexivity.
+  - destruct b as [|b]; [exists (firstn a (x :: l)); reflexivity|].
+    destruct a as [|a]; [lia|]. destruct (IH b a) as [X E]; [lia|].
+    exists X. cbn [firstn app]. rewrite E. reflexivity.
+Qed.
+
+Lemma digits_no_tilde ds : digits ds = true -> ~ In 126 ds.
+Proof.
+  intros D Hin. unfold digits in D. rewrite forallb_forall in D. specialize (D _ Hin). discriminate.
+Qed.
+
+Lemma rx_no_smaller prefix ext i t ds :
+  fs t = shape prefix ext (length ds) ds -> digits ds = true -> (i < length ds)%nat ->
+  rx_match prefix ext i t = None.
+Proof.
+  intros H D Hi. destruct (rx_match prefix ext i t) as [v|] eqn:R; [exfalso|reflexivity].
+  apply rx_sound in R as (ds' & H' & L' & D' & _). rewrite H in H'. unfold shape in H'.
+  destruct (firstn_le_split prefix (7 - length ds) (7 - i)) as [X EX]; [lia|].
+  rewrite EX, fs_app in H'.
+  rewrite !app_assoc in H'. apply app_inv_tail in H'. rewrite <- !app_assoc in H'.
+  apply app_inv_head in H'.
+  destruct X as [|x X]; cbn [fs map app] in H'.
+  - injection H' as H'. subst ds'. lia.
+  - injection H' as H0 H'. apply (digits_no_tilde ds D). rewrite H'.
+    apply in_or_app. right. left. reflexivity.
+Qed.
+
+(* ---------- str(n) / int(s) on the numbers that can be chosen ---------- *)
+Definition dec_ok (n : N) : bool :=
+  let d := dec_str n in
+  Nat.leb 1 (length d) && Nat.leb (length d) 5 && digits d && (int_of_digits d =? n).
+Fixpoint all_from (fuel : nat) (P : N -> bool) (k : N) : bool :=
+  match fuel with O => true | S f => P k && all_from f P (k + 1) end.
+Lemma all_from_spec fuel P : forall k, all_from fuel P k = true ->
+  forall x, k <= x -> x < k + N.of_nat fuel -> P x = true.
+Proof.
+  induction fuel as [|f IH]; intros k H x H1 H2; [lia|].
+  cbn [all_from] in H. apply andb_true_iff in H as [Hk Hr].
+  destruct (N.eq_dec x k) as [->|Hne]; [exact Hk|].
+  apply (IH (k + 1) Hr); lia.
+Qed.
+Lemma dec_ok_all n : n < 65536 -> dec_ok n = true.
+Proof.
+  intros H. apply (all_from_spec (N.to_nat 65536) dec_ok 0); [vm_compute; reflexivity|lia|].
+  rewrite N2Nat.id. exact H.
+Qed.
+Lemma n_rx_5 : n_rx = 5%nat. Proof. reflexivity. Qed.
+Lemma max_le : max_sfn_suffix <= 65536. Proof. discriminate. Qed.
+
+Lemma any_match_in_hit prefix ext t v j : forall l1 l2,
+  (forall i, In i l1 -> rx_match prefix ext i t = None) ->
+  rx_match prefix ext j t = Some v ->
+  any_match_in prefix ext (l1 ++ j :: l2) t = Some v.
+Proof.
+  induction l1 as [|i l1 IH]; intros l2 Hn Hj; cbn [app any_match_in].
+  - rewrite Hj. reflexivity.
+  - rewrite (Hn i (or_introl eq_refl)). apply IH; [|exact Hj]. intros k Hk. apply Hn. right. exact Hk.
+Qed.
+
+(* a text that equals (case-insensitively) the alias with tail n is read as tail n *)
+Lemma any_match_alias prefix ext t n :
+  1 <= n -> n < max_sfn_suffix ->
+  fs t = fs (alias_of prefix n ++ extpart ext) ->
+  any_match prefix ext t = Some n.
+Proof.
+  intros H1 H2 E. pose proof max_le as Hm.
+  assert (Hok : dec_ok n = true) by (apply dec_ok_all; lia).
+  unfold dec_ok in Hok. set (d := dec_str n) in *.
+  apply andb_true_iff in Hok as [Hok Hv]. apply andb_true_iff in Hok as [Hok Hd].
+  apply andb_true_iff in Hok as [L1 L5]. apply Nat.leb_le in L1, L5. apply N.eqb_eq in Hv.
+  assert (Es : fs t = shape prefix ext (length d) d).
+  { rewrite E. unfold alias_of, shape. fold d. rewrite !fs_app, (fs_digits d Hd).
+    cbn [fs map]. change (fold1 126) with 126. rewrite <- !app_assoc. reflexivity. }
+  unfold any_match. rewrite n_rx_5.
+  replace 5%nat with ((length d - 1) + (1 + (5 - length d)))%nat by lia.
+  rewrite seq_app. cbn [seq]. replace (1 + (length d - 1))%nat with (length d) by lia.
+  rewrite <- Hv. apply any_match_in_hit.
+  - intros i Hi. apply in_seq in Hi. apply (rx_no_smaller prefix ext i t d Es Hd). lia.
+  - apply rx_complete; assumption.
+Qed.
+
+Lemma taken_in prefix ext existing l s n :
+  In (l, s) existing ->
+  any_match prefix ext l = Some n \/ any_match prefix ext s = Some n ->
+  taken prefix ext existing n = true.
+Proof.
+  intros Hin H. unfold taken. apply existsb_exists. exists n. split; [|apply N.eqb_refl].
+  unfold tails. apply in_flat_map. exists (l, s). split; [exact Hin|]. cbn [fst snd].
+  apply in_or_app. destruct H as [H|H]; rewrite H; [right|left]; left; reflexivity.
+Qed.
+
+(* the alias (with its extension) differs, case-insensitively, from every long name and
+   every 8.3 name of the directory: it cannot shadow or merge with an existing entry *)
+Theorem alias_unique prefix ext existing a :
+  unique_sfn prefix ext existing = Ok a ->
+  forall l s, In (l, s) existing ->
+    fs l <> fs (a ++ extpart ext) /\ fs s <> fs (a ++ extpart ext).
+Proof.
+  intros H l s Hin. apply unique_sfn_least in H as (n & -> & H1 & H2 & Ht & _).
+  split; intros E; apply (any_match_alias prefix ext _ n H1 H2) in E;
+    rewrite (taken_in prefix ext existing l s n Hin) in Ht; auto; discriminate.
+Qed.
+
+(* regression: without the end anchor (the code before the repair) the one-digit
+   pattern also matched a two-digit alias and read the wrong tail *)
+Example unanchored_reads_wrong_tail :
+  rx_match_gen false [65; 66] [] 1 [65; 66; 126; 49; 48] = Some 1 /\
+  rx_match_gen true [65; 66] [] 1 [65; 66; 126; 49; 48] = None /\
+  any_match [65; 66] [] [65; 66; 126; 49; 48] = Some 10.
+Proof. vm_compute. auto. Qed.
